@@ -391,11 +391,12 @@ impl Responder {
             let status = carrier.send_transaction(&tracker.penalty_tx);
             if let ConfirmationStatus::Rejected(_) = status {
                 rejected.push(uuid);
+            } else if let ConfirmationStatus::IrrevocablyResolved = status {
+                // The penalty is already in the chain bitcoind knows, in a block we have not been handed yet (e.g. we are
+                // catching up). We cannot tell which one, so keep waiting for it, as `handle_reorged_txs` does.
+                dbm.update_tracker_status(uuid, &ConfirmationStatus::InMempoolSince(height))
+                    .unwrap();
             } else {
-                // DISCUSS: What if the tower was down for some time and was later force updated while this penalty got on-chain?
-                // Sending it will yield `ConfirmationStatus::IrrevocablyResolved` which would panic here.
-                // We might want to replace `ConfirmationStatus::IrrevocablyResolved` variant with
-                // `ConfirmationStatus::ConfirmedIn(height - IRREVOCABLY_RESOLVED)
                 dbm.update_tracker_status(uuid, &status).unwrap();
             }
         }
